@@ -402,6 +402,62 @@ impl<Endpoint: Ord + Clone> BlockHandler<Endpoint> {
     }
 }
 
+/// Verification hook (read-only): one cache entry as seen by
+/// [`BlockHandler::verif_snapshot`].
+#[cfg(coap_lite_verif)]
+#[derive(Debug, Clone)]
+pub struct VerifEntry<Endpoint> {
+    pub request_type_ord: u8,
+    pub path: Vec<String>,
+    pub requester: Option<Endpoint>,
+    /// Payload length of the cached response, if one is cached.
+    pub cached_response_len: Option<usize>,
+    /// Length and FNV-1a hash of the upload buffer, if one exists.
+    pub upload_len: Option<usize>,
+    pub upload_hash: Option<u64>,
+    /// Last Block2 value seen in a request (num, more, size exponent).
+    pub last_request_block2: Option<(u16, bool, u8)>,
+}
+
+#[cfg(coap_lite_verif)]
+impl<Endpoint: Ord + Clone> BlockHandler<Endpoint> {
+    /// Verification hook (read-only): lists the cache entries that are not
+    /// expired at the current time, without touching their timestamps.
+    pub fn verif_snapshot(&self) -> Vec<VerifEntry<Endpoint>> {
+        self.states
+            .peek_iter()
+            .map(|(key, state)| VerifEntry {
+                request_type_ord: key.request_type_ord,
+                path: key.path.clone(),
+                requester: key.requester.clone(),
+                cached_response_len: state
+                    .cached_response
+                    .as_ref()
+                    .map(|packet| packet.payload.len()),
+                upload_len: state
+                    .cached_request_payload
+                    .as_ref()
+                    .map(|payload| payload.len()),
+                upload_hash: state.cached_request_payload.as_ref().map(
+                    |payload| {
+                        payload.iter().fold(
+                            0xcbf2_9ce4_8422_2325u64,
+                            |hash, &byte| {
+                                (hash ^ u64::from(byte))
+                                    .wrapping_mul(0x0000_0100_0000_01b3)
+                            },
+                        )
+                    },
+                ),
+                last_request_block2: state
+                    .last_request_block2
+                    .as_ref()
+                    .map(|block| (block.num, block.more, block.size_exponent)),
+            })
+            .collect()
+    }
+}
+
 /// Similar to [`Vec::splice`] except that the Vec's length may be extended to
 /// support the splice, but only up to an increase of `maximum_reserve_len`
 /// (for security reasons if the data you're receiving is untrusted ensure this
